@@ -448,6 +448,7 @@ def gen_schedule_header(rng, cfg, fault_free, est, si):
     if rng.random() < 0.45:
         # line events only inside functions that write shared state, pre-empted there at a high rate
         policy["hot_rate"] = rng.choice([0.02, 0.1, 0.3])
+        policy["quantum"] = rng.choice([0, 0, 300, 3000, 30000])  # yields the thread switched to runs before the next switch may happen
         pollution, clock = gen_fault_script(rng, False)
         hdr = {"proc": [], "threads": [], "pollution": pollution, "clock": clock, "policy": policy, "line_set": "mutators", "parent_seed": 2 + si}
         return _with_disk_faults(rng, cfg, hdr)
